@@ -6,7 +6,6 @@ from typing import TYPE_CHECKING
 from typing import Self
 
 from pest.grammar import Expression
-from pest.grammar.expressions.terminals import Identifier
 from pest.pairs import Pair
 
 if TYPE_CHECKING:
@@ -70,6 +69,7 @@ class Rule(Expression):
         start = state.pos
         state.rule_stack.push(self)
         children: list[Pair] = []
+        hidden = state.hide_pairs
 
         if self.modifier & (ATOMIC | COMPOUND) or self.name in (
             "COMMENT",
@@ -77,11 +77,15 @@ class Rule(Expression):
         ):
             with state.atomic_checkpoint():
                 state.atomic_depth += 1
+                state.hide_pairs = not self.modifier & COMPOUND
                 matched = self.expression.parse(state, children)
+            state.hide_pairs = hidden
         elif self.modifier & NONATOMIC:
             with state.atomic_checkpoint():
                 state.atomic_depth.zero()
+                state.hide_pairs = False
                 matched = self.expression.parse(state, children)
+            state.hide_pairs = hidden
         else:
             matched = self.expression.parse(state, children)
 
@@ -90,25 +94,15 @@ class Rule(Expression):
         if not matched:
             return False
 
-        if self.modifier & SILENT:
-            # Children without an enclosing Pair.
+        if self.modifier & SILENT or (
+            hidden and not self.modifier & (COMPOUND | NONATOMIC)
+        ):
+            # Children without an enclosing Pair. Inside an atomic rule only
+            # compound atomic and non-atomic rules produce pairs.
             pairs.extend(children)
             return True
 
         tag: str | None = state.tag_stack.pop() if state.tag_stack else None
-
-        if self.modifier & ATOMIC:  # TODO: COMMENT and WHITESPACE too?
-            if isinstance(self.expression, Rule):
-                rule: Rule | None = self.expression
-            elif isinstance(self.expression, Identifier):
-                assert state.parser
-                rule = state.parser.rules.get(self.expression.value)
-            else:
-                rule = None
-
-            if not rule or not rule.modifier & (NONATOMIC | COMPOUND):
-                # Atomic rule silences children
-                children = []
 
         pairs.append(
             Pair(
@@ -138,6 +132,7 @@ class Rule(Expression):
 
             inner_pairs = gen.new_temp("children")
             gen.writeln(f"{inner_pairs}: list[Pair] = []")
+            gen.writeln("hidden = state.hide_pairs")
 
             if self.modifier & (ATOMIC | COMPOUND) or self.name in (
                 "COMMENT",
@@ -146,12 +141,16 @@ class Rule(Expression):
                 gen.writeln("with state.atomic_checkpoint():")
                 with gen.block():
                     gen.writeln("state.atomic_depth += 1")
+                    gen.writeln(f"state.hide_pairs = {not self.modifier & COMPOUND}")
                     self.expression.generate(gen, matched_var, inner_pairs)
+                gen.writeln("state.hide_pairs = hidden")
             elif self.modifier & NONATOMIC:
                 gen.writeln("with state.atomic_checkpoint():")
                 with gen.block():
                     gen.writeln("state.atomic_depth.zero()")
+                    gen.writeln("state.hide_pairs = False")
                     self.expression.generate(gen, matched_var, inner_pairs)
+                gen.writeln("state.hide_pairs = hidden")
             else:
                 self.expression.generate(gen, matched_var, inner_pairs)
 
@@ -164,6 +163,14 @@ class Rule(Expression):
                 gen.writeln(f"{pairs_var}.extend({children})")
                 gen.writeln(f"return {matched_var}")
             else:
+                if not self.modifier & (COMPOUND | NONATOMIC):
+                    # Inside an atomic rule only compound atomic and non-atomic
+                    # rules produce pairs.
+                    gen.writeln("if hidden:")
+                    with gen.block():
+                        gen.writeln(f"{pairs_var}.extend({children})")
+                        gen.writeln(f"return {matched_var}")
+
                 # Tag child pairs with the last tag on the stack
                 tag_var = gen.new_temp("tag")
                 gen.writeln("if state.tag_stack:")
@@ -172,19 +179,6 @@ class Rule(Expression):
                 gen.writeln("else:")
                 with gen.block():
                     gen.writeln(f"{tag_var} = None")
-
-                if self.modifier & ATOMIC:  # TODO: COMMENT and WHITESPACE too?
-                    gen.writeln(f"# Atomic rule: {self.name!r}")
-                    assert gen.rules is not None
-                    if isinstance(self.expression, Rule):
-                        rule: Rule | None = self.expression
-                    elif isinstance(self.expression, Identifier):
-                        rule = gen.rules.get(self.expression.value)
-                    else:
-                        rule = None
-
-                    if not rule or not rule.modifier & (NONATOMIC | COMPOUND):
-                        children = "[]"
 
                 pair = (
                     f"Pair("
